@@ -18,7 +18,8 @@ RULE = (
     "for each of the randomised operations (3 plate generators incl. force_include, 6 smoothers, sparse cover, 2 hold-out splits, RandomScorer, DBAL triple sub-sampling, "
     "GaussianDBALScorer, score_chunk, select_next_plate with the k-per-sample policy, sampling.sample with both shipped MCMC models, and the CLIs with --seed: "
     "prepare_retrospective_simulation, train_model, calculate_scores, select_next_plate) a generated input, a seed and two ambient global states (np.random.seed(a) "
-    "followed by j unrelated draws). Non-trivial = the operation actually consumed randomness (a third run with another seed gives a different output). "
+    "followed by j unrelated draws); the fixed cases are additionally executed in fresh interpreters started with other PYTHONHASHSEED values and compared across "
+    "processes. Non-trivial = the operation actually consumed randomness (a third run with another seed gives a different output). "
     "distinct = distinct (operation, case JSON)."
 )
 ASSUMPTIONS = [
@@ -88,7 +89,44 @@ def strategy(tier):
     return st.one_of(*[_case(op) for op in OPS])
 
 
+def _pairwise_fixed():
+    """layout on which the pairwise generator returns and has single-agent rows to distribute over several generated plates"""
+    rows = []
+    for s_ in range(2):
+        for a, b in (("t0", "t1"), ("t2", "t3"), ("t0", "t3"), ("t1", "t2")):
+            rows.append({"s": "s%d" % s_, "p": "u%d" % (len(rows) % 3), "t": [a, b], "d": [1.0, 1.0], "o": 0.5})
+        for k_, t in enumerate(("t0", "t1", "t2", "t3", "t0", "t2")):
+            rows.append({"s": "s%d" % s_, "p": "u%d" % (k_ % 3), "t": [t, "ctl"] if k_ % 2 else ["ctl", t], "d": [1.0, 0.0] if k_ % 2 else [0.0, 1.0], "o": 0.8})
+    return {"arity": 2, "control": "ctl", "rows": rows, "observed": [], "ns": 2, "nt": 8, "ssp": False}
+
+
+def fixed_cases():
+    out = list(_fixed_cases())
+    for seed in (3, 4):
+        for sub, anc in ((1, 0), (2, 0), (1, 2)):
+            out.append({"op": "gen:Pairwise", "screen": _pairwise_fixed(), "seed": seed, "ambient": [1, 2], "ambient_draws": [0, 1], "params": {"name": "Pairwise", "subset_size": sub, "anchor_size": anc}, "flag": True, "fraction": 0.5, "n_thetas": 6, "D": 1, "k": 1})
+    return out
+
+
+def sweep_outputs():
+    """worker entry (run in a fresh interpreter with its own PYTHONHASHSEED): canonical output of every fixed case"""
+    out = []
+    for c in fixed_cases():
+        try:
+            with np.errstate(all="ignore"):
+                out.append([c["op"], "ok", json.dumps(run_op(c, c["seed"]), sort_keys=True, default=str)])
+        except Exception as e:  # noqa
+            out.append([c["op"], "raised", type(e).__name__])
+    return out
+
+
 def exhaustive(tier):
+    yield from fixed_cases()
+    # the same fixed cases in fresh interpreters with other string-hash seeds (set/dict iteration order must not matter)
+    yield {"op": "hashseed-sweep", "hashseeds": [1, 2] if tier == "quick" else [1, 2, 3, 4, 5, 6]}
+
+
+def _fixed_cases():
     # one fixed, hand-sized case per operation so that every operation is exercised in every run
     rows = []
     for s in range(2):
@@ -257,8 +295,38 @@ def _same_state(a, b):
     return a[0] == b[0] and np.array_equal(a[1], b[1]) and a[2:] == b[2:]
 
 
+def _hashseed_sweep(case):
+    import os
+    import subprocess
+    import sys
+
+    from vf.engine import ROOT
+    from vf.tree import REPO, HarnessError
+
+    code = "import sys, json; sys.path.insert(0, %r); from vf import tree; tree.activate(); from checks import c18_determinism as m; print('SWEEP' + json.dumps(m.sweep_outputs()))" % ROOT
+    procs = []
+    for hs in case["hashseeds"]:
+        env = dict(os.environ, PYTHONHASHSEED=str(hs), BATCHIE_REPO=REPO, PYTHONDONTWRITEBYTECODE="1")
+        procs.append((hs, subprocess.Popen([sys.executable, "-c", code], env=env, stdout=subprocess.PIPE, stderr=subprocess.PIPE, text=True)))
+    here = sweep_outputs()  # this interpreter runs with PYTHONHASHSEED=0
+    n_ok = 0
+    for hs, p in procs:
+        so, se = p.communicate(timeout=900)
+        line = [l for l in so.splitlines() if l.startswith("SWEEP")]
+        if p.returncode != 0 or not line:
+            raise HarnessError("hash-seed worker failed (rc=%r): %s" % (p.returncode, se[-500:]))
+        other = json.loads(line[0][5:])
+        require(len(other) == len(here), "hashseed.worker", "worker returned another number of outputs")
+        for (op, st_a, out_a), (op_b, st_b, out_b) in zip(here, other):
+            require(st_a == st_b and out_a == out_b, op + ".depends_on_hash_seed", lambda: "%s: identical inputs and seed give another result in an interpreter started with PYTHONHASHSEED=%s than with PYTHONHASHSEED=0: %s vs %s" % (op, hs, out_a[:200], out_b[:200]))
+            n_ok += 1
+    return {"nontrivial": True, "labels": ["hashseed-sweep"], "counts": {"cross_process_comparisons": n_ok}, "key": ["sweep", case["hashseeds"]]}
+
+
 def check_case(case):
     op = case["op"]
+    if op == "hashseed-sweep":
+        return _hashseed_sweep(case)
     saved = npr.get_state()
     try:
         outs = []
